@@ -315,7 +315,7 @@ func runCase(c *vh.Ctx, cf *vh.CaseFile, tc txCase) {
 		// e.g. Conway+ reject duplicate members of tagged sets; not this property's business
 		c.Res.Count(tc.Tx, false, e.Name+"/decode-rejected")
 		decodeRejected[e.Name]++
-		if strings.HasPrefix(tc.Label, "corpus") && !strings.Contains(tc.Label, "dup-vkey") {
+		if strings.HasPrefix(tc.Label, "corpus") && !strings.Contains(tc.Label, "dup-vkey") && !strings.Contains(tc.Label, "dup-wits-key") {
 			c.Res.Violate("correspondence", "harness-tx-not-decodable", fmt.Sprintf("%s: %s: %v", e.Name, tc.Label, derr), tc)
 		}
 		return
@@ -414,6 +414,35 @@ func runCase(c *vh.Ctx, cf *vh.CaseFile, tc txCase) {
 				c.Res.Violate("monitor", e.Name+"-accepted-required-signer-without-witness",
 					fmt.Sprintf("%s: accepted although required signer #%d (%x) has no valid vkey witness [%s]", e.Name, i, r, tc.Label), tc)
 			}
+		}
+	}
+
+	// ---- the repository's address decoder must classify the resolved outputs
+	// like CIP-19 / the Byron format do (the model takes the classification as input)
+	for _, u := range tc.Utxo {
+		if u.Kind != "addr" {
+			continue
+		}
+		wantK, wantH := addrClass(vh.UnHex(u.Addr))
+		gotK, gotH := "undecodable", []byte(nil)
+		if ad, err := common.NewAddressFromBytes(vh.UnHex(u.Addr)); err == nil {
+			switch pl := ad.PayloadPayload().(type) {
+			case common.AddressPayloadKeyHash:
+				gotK, gotH = "key", pl.Hash[:]
+				if ad.Type() == common.AddressTypeByron {
+					gotK = "byron"
+				}
+			case common.AddressPayloadScriptHash:
+				gotK, gotH = "script", pl.Hash[:]
+			case nil:
+				gotK = "nopay"
+			default:
+				gotK = fmt.Sprintf("%T", pl)
+			}
+		}
+		if gotK != wantK || !bytes.Equal(gotH, wantH) {
+			c.Res.Violate("monitor", "address-"+wantK+"-classified-as-"+gotK,
+				fmt.Sprintf("address %s is %s-locked (credential %x) but the address decoder reports %s (%x)", u.Addr, wantK, wantH, gotK, gotH), tc)
 		}
 	}
 
@@ -535,7 +564,7 @@ func run(c *vh.Ctx) error {
 	for _, tc := range corpus(c.Rng.Fork()) {
 		runCase(c, cf, tc)
 	}
-	n := c.Pick(45, 1200)
+	n := c.Pick(36, 800)
 	for _, e := range eras {
 		r := c.Rng.Fork()
 		for i := 0; i < n; i++ {
